@@ -573,22 +573,33 @@ def findMountType (m : Str) : Option (R (Str × List Str)) :=
       else (true, kv[1]!, acc.2.2)) (false, [], [])
     if !found then some (.error (.mountFormat m)) else some (.ok (ty, toks))
 
+/-- one token of a Mount= value that is being rewritten: `source=`/`src=` goes through handle_storage_source -/
+def mountTokStep (E : Env) (unitPath : Str) (acc : List Str × SUnit) (t : Str) : R (List Str × SUnit) :=
+  if startsWith t (s "source=") || startsWith t (s "src=") then
+    match splitOnce '=' t with
+    | some (_, v) =>
+      match handleStorageSource E unitPath acc.2 v true with
+      | .error e => .error e
+      | .ok r => .ok (acc.1 ++ [s "source=" ++ r.1], r.2)
+    | none => .ok acc
+  else .ok (acc.1 ++ [t], acc.2)
+
 def resolveMount (E : Env) (unitPath : Str) (svc : SUnit) (m : Str) : Option (R (Str × SUnit)) :=
   match findMountType m with
   | none => none
   | some (.error e) => some (.error e)
   | some (.ok (ty, toks)) =>
     if !(ty == s "volume" || ty == s "bind" || ty == s "glob" || ty == s "image") then some (.ok (m, svc))
-    else some (do
-      let (fields, svc) ← toks.foldlM (fun (acc : List Str × SUnit) t => do
-        if startsWith t (s "source=") || startsWith t (s "src=") then
-          match splitOnce '=' t with
-          | some (_, v) =>
-            let (r, svc) ← handleStorageSource E unitPath acc.2 v true
-            pure (acc.1 ++ [s "source=" ++ r], svc)
-          | none => pure acc
-        else pure (acc.1 ++ [t], acc.2)) ([s "type=" ++ ty], svc)
-      pure (commaJoin fields, svc))
+    else some (match toks.foldlM (mountTokStep E unitPath) ([s "type=" ++ ty], svc) with
+      | .error e => .error e
+      | .ok r => .ok (commaJoin r.1, r.2))
+
+/-- one `Mount=` word of the container converter -/
+def mountsStep (E : Env) (unitPath : Str) (acc : List Str × SUnit) (m : Str) : R (List Str × SUnit) :=
+  match resolveMount E unitPath acc.2 m with
+  | some (.ok r) => .ok (acc.1 ++ [s "--mount", r.1], r.2)
+  | some (.error e) => .error e
+  | none => .error .badValue
 
 def healthArgs (u : SUnit) (sec : Str) : List Str :=
   Gen.tbl_handle_health_key_arg_map.flatMap fun (k, a) =>
@@ -617,6 +628,24 @@ def handlePod (E : Env) (u : SUnit) (sec : Str) (svc : SUnit) (ownServiceFile : 
         let svc := addS (addS svc "Unit" "BindsTo" f) "Unit" "After" f
         let link := if (lookupBool u sec (s "StartWithPod")).getD true then some (pod, ownServiceFile) else none
         .ok ([s "--pod-id-file", s "%t/" ++ i.serviceName ++ s ".pod-id"], svc, link)
+
+/-- the `--sdnotify` mode: Notify=healthy, a true boolean (container), else conmon -/
+def sdnotifyArg (u : SUnit) (sec : Str) : Str :=
+  match lookup u sec (s "Notify") with
+  | some v => if v == s "healthy" then s "--sdnotify=healthy"
+              else if (lookupBool u sec (s "Notify")).getD false then s "--sdnotify=container" else s "--sdnotify=conmon"
+  | none => s "--sdnotify=conmon"
+
+/-- service Type of a container: the user's oneshot is kept (no sdnotify, no -d); otherwise Type=notify and
+    NotifyAccess=all are set; any other user Type is an error -/
+def typeAndNotify (u : SUnit) (sec : Str) (cmd : List Str) (svc : SUnit) : R (List Str × SUnit) :=
+  let notify := (cmd ++ [sdnotifyArg u sec, s "-d"], setS (setS svc "Service" "Type" (s "notify")) "Service" "NotifyAccess" (s "all"))
+  match lookup u (s "Service") (s "Type") with
+  | some t =>
+    if t == s "oneshot" then .ok (cmd, svc)
+    else if t == s "notify" then .ok notify
+    else .error (Err.invalidServiceType t)
+  | none => .ok notify
 
 def fromContainer (E : Env) (path : Str) (u : SUnit) : Option (R (SUnit × Option (Str × Str))) :=
   let sec := s "Container"
@@ -654,23 +683,7 @@ def fromContainer (E : Env) (path : Str) (u : SUnit) : Option (R (SUnit × Optio
     ++ addBool u sec Gen.tbl_from_container_unit_bool_keys
   let (nets, svc) ← handleNetworks E u sec svc
   let cmd := cmd ++ nets
-  let (cmd, svc) ← (match lookup u (s "Service") (s "Type") with
-    | some t =>
-      if t == s "oneshot" then pure (cmd, svc)
-      else if t == s "notify" then pure (none : Option Unit) >>= fun _ =>
-        let n := match lookup u sec (s "Notify") with
-          | some v => if v == s "healthy" then s "--sdnotify=healthy"
-                      else if (lookupBool u sec (s "Notify")).getD false then s "--sdnotify=container" else s "--sdnotify=conmon"
-          | none => s "--sdnotify=conmon"
-        pure (cmd ++ [n, s "-d"], setS (setS svc "Service" "Type" (s "notify")) "Service" "NotifyAccess" (s "all"))
-      else throw (Err.invalidServiceType t)
-    | none =>
-        let n := match lookup u sec (s "Notify") with
-          | some v => if v == s "healthy" then s "--sdnotify=healthy"
-                      else if (lookupBool u sec (s "Notify")).getD false then s "--sdnotify=container" else s "--sdnotify=conmon"
-          | none => s "--sdnotify=conmon"
-        pure (cmd ++ [n, s "-d"], setS (setS svc "Service" "Type" (s "notify")) "Service" "NotifyAccess" (s "all"))
-    : R (List Str × SUnit))
+  let (cmd, svc) ← typeAndNotify u sec cmd svc
   let svc := if (lookup u (s "Service") (s "SyslogIdentifier")).isNone then setS svc "Service" "SyslogIdentifier" (s "%N") else svc
   let bOn (k : String) (args : List Str) : List Str := if (lookupBool u sec (s k)).getD false then args else []
   let fmt (k : String) (pre : String) : List Str := match lookup u sec (s k) with
@@ -708,10 +721,7 @@ def fromContainer (E : Env) (path : Str) (u : SUnit) : Option (R (SUnit × Optio
     ++ ((lookupAllArgs u sec (s "Unmask")).flatMap fun m => [s "--security-opt", s "unmask=" ++ m])
     ++ ((lookupAllArgs u sec (s "EnvironmentFile")).flatMap fun f => [s "--env-file", absFromUnit path f])
     ++ ((lookupAllArgs u sec (s "Secret")).flatMap fun x => [s "--secret", x])
-  let (mounts, svc) ← (lookupAllArgs u sec (s "Mount")).foldlM (fun (acc : List Str × SUnit) m =>
-    match resolveMount E path acc.2 m with
-    | some r => do let (x, svc) ← r; pure (acc.1 ++ [s "--mount", x], svc)
-    | none => throw Err.badValue) ([], svc)
+  let (mounts, svc) ← (lookupAllArgs u sec (s "Mount")).foldlM (mountsStep E path) ([], svc)
   let (podArgs, svc, link) ← handlePod E u sec svc (serviceFileName self)
   let cmd := cmd ++ mounts ++ healthArgs u sec ++ podArgs ++ podmanArgs u sec
     ++ (if !image.isEmpty then [image] else [s "--rootfs", rootfs])
